@@ -23,7 +23,20 @@ Definition d_input (v : val) : input :=
      i_media := dopt dstr (nth_val 4 v); i_stream := dopt d_stream (nth_val 5 v);
      i_sse := dopt (dlist dstr) (nth_val 6 v);
      i_clen := dopt dstr (nth_val 7 v); i_ctype := dopt dstr (nth_val 8 v);
-     i_wrapper := dbool (nth_val 9 v) |}.
+     i_wrapper := dbool (nth_val 9 v); i_cached := false |}.
+
+Definition d_step (v : val) : step :=
+  let t := dZ (nth_val 0 v) in
+  if t =? 0 then StText (dopt dstr (nth_val 1 v))
+  else if t =? 1 then StData (dopt dstr (nth_val 1 v))
+  else if t =? 2 then StMedia (dopt dstr (nth_val 1 v))
+  else if t =? 3 then StCtype (dopt dstr (nth_val 1 v))
+  else StRender.
+
+(* a session input: [steps; head; status; stream?; clen?; wrapper] *)
+Definition d_session (v : val) : input :=
+  input_of_session (dlist d_step (nth_val 0 v)) (dbool (nth_val 1 v)) (d_status (nth_val 2 v))
+                   (dopt d_stream (nth_val 3 v)) (dopt dstr (nth_val 4 v)) (dbool (nth_val 5 v)).
 
 Definition v_wobs (o : wobs) : list val :=
   [vstr (wo_status o); vopt vstr (wo_clen o); vopt vstr (wo_ctype o);
@@ -66,6 +79,27 @@ Definition run (v : val) : val :=
     L [I 1; vlist vnat (oracle_wsgi (d_input i) (d_wobs st cl ct ch ra rd cs))]
   | L [I 3; i; evs; ra; rd; cs] =>
     L [I 1; vlist vnat (oracle_asgi (d_input i)
+                          {| ao_events := dlist d_aevent evs; ao_raised := dbool ra;
+                             ao_reads := dnat rd; ao_closes := dnat cs |})]
+  (* the same four ops for responses built in several steps (op + 10) *)
+  | L [I 10; by_code; ss] =>
+    let i' := d_session ss in
+    match wsgi_emit (dbool by_code) i' with
+    | None => L [I 0]
+    | Some st => let o := wobs_of st in
+                 L (I 1 :: v_wobs o ++ [vlist vnat (oracle_wsgi i' o)])
+    end
+  | L [I 11; ss; fa] =>
+    let i' := d_session ss in
+    match asgi_emit i' (dopt dnat fa) with
+    | None => L [I 0]
+    | Some o => L [I 1; vlist v_aevent (ao_events o); vbool (ao_raised o); vnat (ao_reads o);
+                   vnat (ao_closes o); vlist vnat (oracle_asgi i' o)]
+    end
+  | L [I 12; ss; st; cl; ct; ch; ra; rd; cs] =>
+    L [I 1; vlist vnat (oracle_wsgi (d_session ss) (d_wobs st cl ct ch ra rd cs))]
+  | L [I 13; ss; evs; ra; rd; cs] =>
+    L [I 1; vlist vnat (oracle_asgi (d_session ss)
                           {| ao_events := dlist d_aevent evs; ao_raised := dbool ra;
                              ao_reads := dnat rd; ao_closes := dnat cs |})]
   | _ => L [I (-1)]
